@@ -89,7 +89,11 @@ func (bsm *blockstoreManager) getBlockSizes(ctx context.Context, ks []cid.Cid) (
 	if len(ks) == 0 {
 		return nil, nil
 	}
+	// -1 marks a block that was not found (a stored block may have size 0).
 	sizes := make([]int, len(ks))
+	for i := range sizes {
+		sizes[i] = -1
+	}
 
 	var count atomic.Int32
 	err := bsm.jobPerKey(ctx, ks, func(i int, c cid.Cid) {
@@ -114,7 +118,7 @@ func (bsm *blockstoreManager) getBlockSizes(ctx context.Context, ks []cid.Cid) (
 
 	res := make(map[cid.Cid]int, results)
 	for i, n := range sizes {
-		if n != 0 {
+		if n >= 0 {
 			res[ks[i]] = n
 		}
 	}
